@@ -113,9 +113,12 @@ struct Sim {
     else if (s == "cancel") do_cancel();
     else if (s == "newcancel") { start_sub("query"); do_cancel(); }
     else if (s == "cancelnew") { do_cancel(); start_sub("query"); }
+    else if (s == "slownew") { w.now_us += 7200LL * 1000000; start_sub("query"); }   // a slow callback: two hours pass before it starts its follow-up request
   }
 
-  static void cb_dnsrec(void *arg, ares_status_t status, size_t timeouts, const ares_dns_record_t *rec) { CbArg *a = (CbArg *)arg; Req &r = a->sim->reqs[a->id]; r.api = "dnsrec"; if (r.calls == 0 && !a->sim->destroyed) a->sim->absorb_dnsrec(r, rec); a->sim->completed(r, (int)status, (int)timeouts); }
+  static void cb_dnsrec(void *arg, ares_status_t status, size_t timeouts, const ares_dns_record_t *rec) { CbArg *a = (CbArg *)arg; Req &r = a->sim->reqs[a->id]; r.api = "dnsrec"; if (r.calls == 0 && !a->sim->destroyed) a->sim->absorb_dnsrec(r, rec); a->sim->completed(r, (int)status, (int)timeouts);
+    // the record is lent to the application for the whole duration of its callback, whatever the callback did in between (ASan sees a record released early)
+    if (rec && !a->sim->destroyed) { size_t n = ares_dns_record_rr_cnt(rec, ARES_SECTION_ANSWER); for (size_t i = 0; i < n; i++) (void)ares_dns_rr_get_ttl(ares_dns_record_rr_get_const(rec, ARES_SECTION_ANSWER, i)); } }
   static void cb_bytes(void *arg, int status, int timeouts, unsigned char *abuf, int alen) {
     CbArg *a = (CbArg *)arg; Req &r = a->sim->reqs[a->id]; r.api = "bytes";
     if (r.calls == 0 && !a->sim->destroyed && abuf && alen > 0) { volatile unsigned char t = abuf[alen - 1]; (void)t; ref::Msg m; ref::Verdict v = ref::decode(abuf, (size_t)alen, m); if (v.lenient_ok) a->sim->absorb_msg(r, m); else a->sim->violate("C01.undecodable-bytes-to-callback", v.reason); }
